@@ -57,6 +57,34 @@ def supplier(kind):
     return make
 
 
+class _Factory:
+    """a supplier that is an object: usable through its bound method or through __call__"""
+
+    def __init__(self, inner):
+        self.inner = inner
+
+    def build(self, xa, ya):
+        return self.inner(xa, ya)
+
+    def __call__(self, xa, ya):
+        return self.inner(xa, ya)
+
+
+class _SupplierClass:
+    """a supplier that is a CLASS: calling it with (x, y) constructs the sampling function object"""
+    maker = None
+
+    @classmethod
+    def bind(cls, inner):
+        return type("BoundSupplier", (cls,), {"maker": staticmethod(inner)})
+
+    def __init__(self, xa, ya):
+        self.f = type(self).maker(xa, ya)
+
+    def __call__(self, t):
+        return self.f(t)
+
+
 def run_case(ctx, kind_, idx):
     from traffic_weaver import Weaver, rfa
     rng = ctx.rng(kind_, idx)
@@ -73,6 +101,21 @@ def run_case(ctx, kind_, idx):
         sk = SUPPLIERS[int(rng.integers(0, len(SUPPLIERS)))]
         route = ["supplier", "supplier_kwargs", "subclass"][int(rng.integers(0, 3))]
         make = supplier(sk)
+        # the supplier is "a callable": a function, a lambda - or a class, a functools.partial, a bound method, an
+        # instance with __call__
+        ck = ["function", "class", "partial", "bound_method", "callable_instance"][int(rng.integers(0, 5))]
+        if route == "supplier" and ck != "function":
+            inner = make
+            if ck == "class":
+                make = PchipInterpolator if sk == "pchip" else CubicSpline if sk in ("zero_d",) else _SupplierClass.bind(inner)
+            elif ck == "partial":
+                import functools
+                make = functools.partial(lambda xa, ya, _f=None: _f(xa, ya), _f=inner)
+            elif ck == "bound_method":
+                make = _Factory(inner).build
+            else:
+                make = _Factory(inner)
+            meta["supplier_callable"] = ck
         if route == "supplier":
             kw = {"sampling_function_supplier": make}
         elif route == "supplier_kwargs":
@@ -91,8 +134,13 @@ def run_case(ctx, kind_, idx):
         meta["supplier"] = sk
         meta["supplied_by"] = route
         ctx.count("sampling_function_via:" + route)
+    if np.any(np.asarray(x) == 0.0) and rng.integers(0, 2):
+        x = np.array(x, dtype=float)
+        x[x == 0.0] = -0.0               # an abscissa that is a negative zero (a rounded small negative time offset)
+        meta["xcls"] = str(meta["xcls"]) + "+negative_zero"
     n_arg, _nt = gen.count_arg(rng, n)
     xin, xk = gen.as_container(rng, x)
+    x = np.asarray(xin, dtype=float)        # what the library is given (an integer container cannot hold a negative zero)
     yin, yk = gen.as_container(rng, y)
     meta.update({"xcont": xk, "ycont": yk, "n_type": type(n_arg).__name__})
     via_weaver = bool(rng.integers(0, 3) == 0)
